@@ -64,6 +64,10 @@ func c04Forms() []addrForm {
 		addrForm{Name: "xff-two-lines-rev", Peer: "192.0.2.1:443", XFF: []string{"10.0.0.2", "10.0.0.1"}},
 		addrForm{Name: "xff-equals-proxy-peer", Peer: "10.0.0.1:443", XFF: []string{"10.0.0.2"}},
 		addrForm{Name: "peer-other-port", Peer: "10.0.0.1:1"},
+		// what a proxy may put first when it does not know the client (the gateway takes the element verbatim)
+		addrForm{Name: "xff-unknown", Peer: "192.0.2.1:443", XFF: []string{"unknown"}},
+		addrForm{Name: "xff-ip-port", Peer: "192.0.2.1:443", XFF: []string{"10.0.0.1:51234"}},
+		addrForm{Name: "xff-hostname,ip", Peer: "192.0.2.1:443", XFF: []string{"client.example, 10.0.0.1"}},
 	)
 	return out
 }
@@ -110,7 +114,15 @@ func c04IssueCookie(f addrForm, host string) (tok string, seenIP string, cookie 
 		web.SaveSessionIdentity(r, w, id)
 	}))
 	rec := httptest.NewRecorder()
-	h.ServeHTTP(rec, r)
+	func() {
+		// a panic in the issuing path means: nothing was issued (net/http would recover it; robustness is C10's)
+		defer func() {
+			if recover() != nil {
+				tok, seenIP = "", ""
+			}
+		}()
+		h.ServeHTTP(rec, r)
+	}()
 	for _, c := range rec.Result().Cookies() {
 		if c.Name == "RDPGWSESSION" {
 			cookie = c.Value
